@@ -536,6 +536,20 @@ func initializeAliasToIndexMap() error {
 	}
 
 	for _, dir := range dirs {
+		// the alias files of org 0 are kept directly in VTableAliasesDir
+		if !dir.IsDir() && strings.HasSuffix(dir.Name(), ".json") {
+			indexName := strings.TrimSuffix(dir.Name(), ".json")
+			aliasNames, err := GetAliases(indexName, 0)
+			if err != nil {
+				log.Errorf("initializeAliasToIndexMap: For indexName=%v, Failed to getAllAliasInIndexFile fname=%v, err=%v", indexName, dir.Name(), err)
+				return err
+			}
+
+			for aliasName := range aliasNames {
+				putAliasToIndexInMem(aliasName, indexName, 0)
+			}
+			continue
+		}
 		if dir.IsDir() {
 			orgid := dir.Name()
 			orgIdNumber, _ := strconv.ParseInt(orgid, 10, 64)
